@@ -34,7 +34,10 @@ PROP = "C07"
 
 POOL_PLAIN = ["order_id", "index", "not_active", "android", "iffy", "elsewhere", "returned", "defn", "salty",
               "weighted_avg", "inx", "ore", "andy", "note", "splitters_2", "elseif_x", "notin", "_", "_x", "X", "AbC",
-              "a", "a1", "__dunder__", "ifelse", "in_", "returns", "origin", "india", "notify", "elsewise", "define"]
+              "a", "a1", "__dunder__", "ifelse", "in_", "returns", "origin", "india", "notify", "elsewise", "define",
+              # names the generated code uses as keyword-argument names or that look special, but which are legitimate
+              "population", "weights", "input_id", "cum_weights", "self", "id", "key", "fn", "exp", "e", "cls", "args",
+              "salt_", "splitter", "weight", "Weighted", "IF", "Def", "x" * 64]
 RESERVED = sorted(set(keyword.kwlist) - {"in", "not", "def", "if", "else", "return", "and", "or"})
 HELPERS = ["partial", "deterministic_choice", "ExperimentConditionalFailedError", "choose_experiment_variant", "kwargs",
            "str", "map"]
@@ -67,6 +70,17 @@ def structure_programs():
         out.append(("nested-tuples", None, relabel(Program("e", If(((Cmp(Tup((Lit(1), Lit(2))), op, Tup((Tup((Lit(1), Lit(2))), Lit(3)))), R()),), R()), None, ("u",)))))
         out.append(("nested-tuples", None, relabel(Program("e", If(((Cmp(Tup((Id("x"), Lit(2))), op, Tup((Tup((Lit(1), Lit(2))), Tup((Lit(3), Lit(2)))))), R()),), R()), None, ("u",)))))
         out.append(("single-tuple", None, relabel(Program("e", If(((Cmp(Id("x"), op, Tup((Lit(7),))), R()),), R()), None, ("u",)))))
+    # tuples made of identifiers only, identifiers on both sides, literal on the left
+    for op in ("in", "not in"):
+        out.append(("tuple-ids", None, relabel(Program("e", If(((Cmp(Id("x"), op, Tup((Id("y"), Id("z")))), R()),), R()), None, ("u",)))))
+        out.append(("tuple-ids", None, relabel(Program("e", If(((Cmp(Id("x"), op, Tup((Id("y"),))), R()),), None), None, ("u",)))))
+        out.append(("tuple-ids", None, relabel(Program("e", If(((Cmp(Lit(-2), op, Tup((Lit(-2), Lit(-0.5), Id("y")))), R()),), R()), None, ("u",)))))
+    out.append(("ids-both-sides", None, relabel(Program("e", If(((Cmp(Id("a"), "<=", Id("b")), R()), (Cmp(Id("b"), "!=", Id("c")), R())), None), None, ("u",)))))
+    # no splitters (random draw), no salt / salt only, weights 0 and decimal, single group
+    out.append(("no-splitters", None, relabel(Program("e", If(((Cmp(Id("f"), "==", Lit("")), R(2)),), R(1)), None, None))))
+    out.append(("no-splitters", None, relabel(Program("e", R(3), "only_salt", None))))
+    zero = Ret((Group(Lit("z0"), 0), Group(Lit("z1"), 2.5, "2.5"), Group(Lit(7), 0), Group(Lit(-1.5, text="-1.5"), 1)))
+    out.append(("zero-weights", None, relabel(Program("e", If(((Cmp(Id("f"), ">", Lit(0)), zero),), Ret((Group(Lit("only"), 0.000000001, "0.000000001"),))), None, ("u",)))))
     # 64 groups, mixed literal kinds
     groups = tuple(Group(Lit("g%d" % i if i % 3 else i), 1 + i % 4) for i in range(64))
     out.append(("wide", None, relabel(Program("e", Ret(groups), None, ("u",)))))
